@@ -392,6 +392,45 @@ def rule_word_advance(ck, facts):
     ck.floor(R, "word_cursor_walkers", n, 2)
 
 
+
+def rule_verbatim(ck, facts):
+    """text taken from the program is not edited after it was written into a generated line"""
+    from ..facts import const_str, const_int
+
+    R = "C18.verbatim"
+    ck.rule(R, "the generator writes string literals of the program into the lines it generates (an arm of its dispatch formats the text of a `String` instruction into a line); a later `str::replace` over generated text with a fixed pattern (`?`, `memory.`) therefore also rewrites the inside of such a literal — the transpiled program then holds another string than the VM. Replacements whose pattern is handed in (template markers) are listed")
+    lang = facts.crate(roles.LANG)
+    n = 0
+    literal_arm = False
+    for f in lang.fns:
+        if "::compiler::rustgen" not in f.path or f.kind == "promoted":
+            continue
+        cov = cover.coverage(facts, f, roles.MIR_INSTR)
+        if cov is not None and cov.primary is not None and "String" in cov.primary_handled() and not cov.arm_diverges("String"):
+            literal_arm = True
+    for f in lang.fns:
+        if "::compiler::rustgen" not in f.path or f.kind == "promoted" or "::test" in f.path:
+            continue
+        for b, t in f.calls():
+            c = callee(t) or ""
+            if c.split("::")[-1].split("<")[0] not in ("replace", "replacen") or "str" not in c or len(t[5]) < 2:
+                continue
+            n += 1
+            pat = const_str(t[5][1])
+            if pat is None and t[5][1][0] == "c" and t[5][1][1] == "i" and len(t[5][1]) > 3 and t[5][1][2] == "char":
+                pat = chr(int(t[5][1][3]))
+            owner = f.short.split("::")[-1]
+            if pat is None:
+                ck.ok(R, "replace|%s|<pattern handed in>" % owner, {"fn": owner})
+                continue
+            key = "replace|%s|%s" % (owner, pat)
+            if literal_arm:
+                ck.bad(R, key, "%s rewrites every occurrence of %r in generated text, including occurrences inside a string literal of the program that was written into that text: `\"what?\"` becomes `\"what.unwrap()\"` in the transpiled program" % (f.short, pat), f.where(t))
+            else:
+                ck.ok(R, key, {"fn": owner, "pattern": pat, "literals_in_generated_text": False})
+    ck.floor(R, "text_replacements", n, 1)
+
+
 def run(ck, facts, tier):
     rule_state_borrow(ck, facts)
     rule_word_cursor(ck, facts)
